@@ -34,6 +34,7 @@ func runC08(r *Run, verifDir string) {
 	c08K8NilItems(r)
 	c08K9RequestsOnly(r)
 	c08K3RecoveredError(r, "C08.K3")
+	c08K12Deadlines(r)
 	r.Rule("C08.K11", "terminate closes the stream on every path (early exits only through a sound idempotence test)", 1)
 	terminateClosesStream(r, "C08.K11", "kmipserver")
 }
@@ -1639,4 +1640,84 @@ func blockInCycle(b *ssa.BasicBlock) bool {
 		return false
 	}
 	return walk(b)
+}
+
+// c08K12Deadlines: a deadline armed on a connection for a bounded phase (the TLS handshake) is lifted again in both
+// directions before the connection is used for requests: SetDeadline arms the read AND the write side, so lifting
+// only the read deadline leaves every response written after the period fail with an i/o timeout.
+func c08K12Deadlines(r *Run) {
+	p := r.P
+	r.Rule("C08.K12", "a deadline armed on a connection is lifted again in the direction(s) it was armed for", 1)
+	isZeroTime := func(v ssa.Value) bool {
+		if k, ok := v.(*ssa.Const); ok && k.Value == nil {
+			return true
+		}
+		if ld, ok := v.(*ssa.UnOp); ok && ld.Op == token.MUL {
+			if al, ok := ld.X.(*ssa.Alloc); ok {
+				for _, ref := range *al.Referrers() {
+					switch ref.(type) {
+					case *ssa.Store, *ssa.FieldAddr:
+						return false
+					}
+				}
+				return true
+			}
+		}
+		return false
+	}
+	n := 0
+	for _, fn := range pkgFuncs(p, "kmipserver") {
+		type ev struct {
+			in    ssa.Instruction
+			kinds string // "R", "W" or "RW"
+			zero  bool
+		}
+		var evs []ev
+		allInstrs(fn, func(in ssa.Instruction) {
+			c := callOf(in)
+			if c == nil {
+				return
+			}
+			name := ""
+			if c.IsInvoke() {
+				name = c.Method.Name()
+			} else {
+				name = callID(c).name
+			}
+			kinds := map[string]string{"SetDeadline": "RW", "SetReadDeadline": "R", "SetWriteDeadline": "W"}[name]
+			if kinds == "" || len(c.Args) == 0 {
+				return
+			}
+			evs = append(evs, ev{in, kinds, isZeroTime(c.Args[len(c.Args)-1])})
+		})
+		for _, a := range evs {
+			if a.zero {
+				continue
+			}
+			n++
+			key := fmt.Sprintf("%s/deadline#%d", fnKey(fn), n)
+			cleared := map[byte]bool{}
+			for _, z := range evs {
+				if z.zero && dominatesInstr(a.in, z.in) {
+					for i := 0; i < len(z.kinds); i++ {
+						cleared[z.kinds[i]] = true
+					}
+				}
+			}
+			missing := ""
+			for i := 0; i < len(a.kinds); i++ {
+				if !cleared[a.kinds[i]] {
+					missing += map[byte]string{'R': "read", 'W': "write"}[a.kinds[i]] + " "
+				}
+			}
+			if missing == "" {
+				r.OK("C08.K12", key, a.in.Pos(), "armed deadline lifted again in every direction")
+			} else {
+				r.Bad("C08.K12", key, a.in.Pos(), "%s arms a deadline on the connection that is never lifted for the %sside: once it has expired every operation in that direction fails with an i/o timeout — requests are still executed but their responses are not delivered (or an idle client is disconnected)", fnKey(fn), missing)
+			}
+		}
+	}
+	if n == 0 {
+		r.OK("C08.K12", "kmipserver/no-deadline", token.NoPos, "no deadline is armed on a connection")
+	}
 }
